@@ -106,13 +106,13 @@ theorem lexAll_nln {cfg : Cfg} (hs : cfg.up.Sane) (fuel : Nat) (st : LexState) (
         rw [D.2]
         exact ih o.st _ _ _ S.2.2.2.1 _ L.2
 
-theorem softKwGo_nln (ts : List Spanned) (sol : Bool) (d : Nat) (ls : Bool) :
-    NlnPlacement d ls ((softKwGo ts sol).map (·.tok)) ↔ NlnPlacement d ls (ts.map (·.tok)) := by
-  induction ts generalizing sol d ls with
+theorem softKwGo_nln (ts : List Spanned) (st : SoftSt) (d : Nat) (ls : Bool) :
+    NlnPlacement d ls ((softKwGo ts st).map (·.tok)) ↔ NlnPlacement d ls (ts.map (·.tok)) := by
+  induction ts generalizing st d ls with
   | nil => simp [softKwGo]
   | cons a ts ih =>
     simp only [softKwGo, List.map_cons, NlnPlacement]
-    rcases softTok_cases sol a ts with h | ⟨k, hk, h⟩
+    rcases softTok_cases st.sol st.sos a ts with h | ⟨k, hk, h⟩
     · rw [h, ih]
     · rw [h, hk, ih]; simp [lineStartStep, depthStep]
 
